@@ -22,13 +22,20 @@ import numpy as np
 from . import common
 
 PROP = "C10"
-MODULES = ["PdsVerif.Props.C10"]
-MODEL_MODULES = ["PdsVerif.Model.FeatDir"]
+MODULES = ["PdsVerif.Props.CliTie", "PdsVerif.Props.C10"]
+MODEL_MODULES = ["PdsVerif.Model.FeatDir", "PdsVerif.Model.Cli"]
 REQUIRED = ["PdsVerif.C10." + n for n in [
     "manifest_sound", "manifest_complete_but_inflight", "completed_eq_uninterrupted", "uninterrupted_run",
     "resume_reaches_completion", "resume_eq_uninterrupted", "old_seeding_breaks_resume",
     "old_buffering_loses_progress", "listed_not_rewritten", "partial_files_are_overwritten",
-    "loader_workers_irrelevant", "workers_irrelevant"]]
+    "loader_workers_irrelevant", "workers_irrelevant"]] + ["PdsVerif.CliTie." + n for n in ["torchItem_seed", "nonneg_ok_iff", "nonneg_ok_zero", "rules_current_eq", "file_name_rule", "file_name_injective"]]
+
+
+def translate(repo):
+    """decision logic of signals-to-torch-feat-dir (command_line.py) -> Generated/CliConsts.lean (theorems: Props/CliTie.lean)"""
+    from .translate import cliconsts
+    return cliconsts.generate(repo)
+
 RULE = (
     "a case is a fault schedule on the real tool: (utterance count 0..5, computer config raw|fbank, --num-workers 0..3, "
     "list of invocations each with at most one injected fault (hard kill = os._exit(137) | soft = KeyboardInterrupt) at "
